@@ -1,6 +1,7 @@
 package main
 
 import (
+	"regexp"
 	"fmt"
 	"strings"
 
@@ -18,6 +19,7 @@ func checkC02(p *Prog, c *Check) {
 	c02Summaries(p, c)
 	c02Literals(p, c)
 	c02Fired(p, c)
+	matchOperatorTable(p, c, "C02-R6.match")
 	c02SQL(p, c)
 	c02Sorter(p, c)
 	c02Shares(p, c)
@@ -410,55 +412,106 @@ func c02SQL(p *Prog, c *Check) {
 }
 
 func c02Sorter(p *Prog, c *Check) {
-	rule := "C02-R8"
-	fn, err := p.Func("keyperimpl/shutterservice.sortIdentityPreimages")
+	sorterRule(p, c, "C02-R8", "keyperimpl/shutterservice.sortIdentityPreimages")
+}
+
+// sorterRule: fn returns a full copy of its parameter sorted by sort.Slice whose comparator is
+// bytes.Compare(S[i], S[j]) < 0 on that very slice S (the whole slice, not a sub-slice, and not the
+// untouched input).
+func sorterRule(p *Prog, c *Check, rule, spec string) {
+	fn, err := p.Func(spec)
 	if !c.Must(err) {
 		return
 	}
 	c.Analysed(shortFn(fn))
+	ok, why := sorterContract(p, fn)
+	c.Result(ok, rule, fnName(fn), p.Rel(fn.Pos()), shortFn(fn), "sorter", why, "copy + sort.Slice by bytes.Compare(s[i],s[j]) < 0 on the slice being sorted")
+}
+
+func sorterContract(p *Prog, fn *ssa.Function) (bool, string) {
 	fi := p.Info(fn)
-	// result is a copy of the parameter, sorted by sort.Slice with less = bytes.Compare(s[i], s[j]) < 0
-	ok := false
-	why := "no sort.Slice call on the returned slice"
-	for _, ci := range callsTo(fn, "sort.Slice") {
-		args := ci.Common().Args
-		sorted := fi.T(unbox(args[0]))
-		ret := returnsOf(fn)
-		if len(ret) != 1 || fi.T(ret[0].Results[0]).s != sorted.s {
-			why = "the sorted slice is not the one returned"
-			continue
-		}
-		mc := asClosure(args[1])
-		if mc == nil {
-			why = "less function is not a local closure"
-			continue
-		}
-		less := mc.Fn.(*ssa.Function)
-		lfi := p.Info(less)
-		lr := returnsOf(less)
-		if len(lr) != 1 {
-			why = "less has several returns"
-			continue
-		}
-		b := Binds{"i": lfi.T(less.Params[0]), "j": lfi.T(less.Params[1])}
-		if ParsePat("(Compare($s[$i], $s[$j]) < 0)").Match(lfi.T(lr[0].Results[0]), b) {
-			ok = true
-		} else {
-			why = "less is not bytes.Compare(s[i], s[j]) < 0: " + lfi.T(lr[0].Results[0]).s
-		}
-		// copy(sorted, param) with len(sorted) == len(param)
-		hasCopy := false
-		for _, cc := range callsTo(fn, "builtin:copy") {
-			if fi.T(cc.Common().Args[0]).s == sorted.s && fi.T(cc.Common().Args[1]).s == fi.T(fn.Params[0]).s {
-				hasCopy = true
+	calls := callsTo(fn, "sort.Slice")
+	if len(calls) != 1 {
+		return false, fmt.Sprintf("expected one sort.Slice call, found %d", len(calls))
+	}
+	ci := calls[0]
+	args := ci.Common().Args
+	a0 := unbox(args[0])
+	sorted := fi.T(a0)
+	ret := returnsOf(fn)
+	if len(ret) != 1 || fi.T(ret[0].Results[0]).s != sorted.s {
+		return false, "the slice handed to sort.Slice is not (all of) the slice returned"
+	}
+	if !instrDominates(ci, ret[0]) {
+		return false, "the sort does not run on every path"
+	}
+	mc := asClosure(args[1])
+	if mc == nil {
+		return false, "less function is not a local closure"
+	}
+	less := mc.Fn.(*ssa.Function)
+	lfi := p.Info(less)
+	lr := returnsOf(less)
+	if len(lr) != 1 {
+		return false, "less has several returns"
+	}
+	b := Binds{"i": lfi.T(less.Params[0]), "j": lfi.T(less.Params[1])}
+	if !ParsePat("(Compare($s[$i], $s[$j]) < 0)").Match(lfi.T(lr[0].Results[0]), b) {
+		return false, "less is not bytes.Compare(s[i], s[j]) < 0: " + lfi.T(lr[0].Results[0]).s
+	}
+	// $s is the slice being sorted: the captured variable bound to the sort.Slice argument
+	same := b["s"].s == sorted.s // a never-reassigned captured variable resolves to the parent's value
+	if m := regexp.MustCompile(`free:(\w+)`).FindStringSubmatch(b["s"].s); m != nil {
+		for k, fv := range less.FreeVars {
+			if fv.Name() != m[1] || k >= len(mc.Bindings) {
+				continue
+			}
+			bv := mc.Bindings[k]
+			if bv == a0 {
+				same = true
+			}
+			if ld, isLd := a0.(*ssa.UnOp); isLd && ld.X == bv {
+				same = true
 			}
 		}
-		if !hasCopy {
-			ok = false
-			why = "the sorted slice is not a full copy of the input"
+	}
+	if !same {
+		return false, "the comparator does not index the slice being sorted: " + b["s"].s
+	}
+	// copy(sorted, param) with len(sorted) == len(param)
+	hasCopy := false
+	for _, cc := range callsTo(fn, "builtin:copy") {
+		if fi.T(cc.Common().Args[0]).s == sorted.s && fi.T(cc.Common().Args[1]).s == fi.T(fn.Params[0]).s && instrDominates(cc, ci) {
+			hasCopy = true
 		}
 	}
-	c.Result(ok, rule, "sortIdentityPreimages", p.Rel(fn.Pos()), shortFn(fn), "sorter", why, "copy + sort.Slice by bytes.Compare(s[i],s[j]) < 0")
+	if !hasCopy {
+		return false, "the sorted slice is not a full copy of the input"
+	}
+	if ms, isMake := sliceOrigin(a0).(*ssa.MakeSlice); !isMake || !ParsePat("len($p)").Match(fi.T(ms.Len), Binds{"p": fi.T(fn.Params[0])}) {
+		return false, "the sorted slice is not allocated with the input's length"
+	}
+	return true, ""
+}
+
+// sliceOrigin: the value a slice variable was initialised from (through a single-store local).
+func sliceOrigin(v ssa.Value) ssa.Value {
+	if ld, ok := v.(*ssa.UnOp); ok {
+		if al, ok := ld.X.(*ssa.Alloc); ok {
+			var st *ssa.Store
+			n := 0
+			for _, r := range *al.Referrers() {
+				if s, ok := r.(*ssa.Store); ok && s.Addr == ssa.Value(al) {
+					st = s
+					n++
+				}
+			}
+			if n == 1 {
+				return st.Val
+			}
+		}
+	}
+	return v
 }
 
 func c02Shares(p *Prog, c *Check) {
